@@ -55,6 +55,7 @@ type Profile struct {
 	Examples     bool
 	ParamHeavy   bool // favour path/query/header/cookie mappings and arrays of primitives
 	RespHeavy    bool // favour explicit responses: headers, cookies, tags, result types
+	ViewHeavy    bool // most user types are result types with several views; results are result types
 	// Avoid lists open known findings (quirk IDs) whose input class the
 	// generator must not emit; every avoidance is counted.
 	Avoid map[string]bool
@@ -81,6 +82,13 @@ func Errors() Profile {
 	return Profile{Name: "errors", MaxServices: 2, MaxMethods: 3, MaxFields: 4, Runtime: true,
 		Validations: true, Defaults: true, UserTypes: true, Aliases: true, MultiRoute: true, BasePaths: true,
 		Maps: true, PrimPayloads: true, Errors: true, CustomErrors: true, ParamHeavy: true}
+}
+
+// Views is the C08 profile.
+func Views() Profile {
+	return Profile{Name: "views", MaxServices: 2, MaxMethods: 3, MaxFields: 5, Runtime: true,
+		Validations: true, Defaults: true, UserTypes: true, Aliases: true, Recursive: true, ResultTypes: true, Collections: true,
+		RespHeaders: true, Maps: true, ViewHeavy: true, RespHeavy: true}
 }
 
 // Security is the C06 profile.
@@ -265,6 +273,9 @@ func (g *G) newVar() string {
 func (g *G) userType() {
 	t := g.t
 	kind := rapid.IntRange(0, 9).Draw(t, "utkind")
+	if g.p.ViewHeavy && kind >= 4 {
+		kind = 2
+	}
 	switch {
 	case kind <= 1 && g.p.Aliases:
 		// primitive alias with optional validation
@@ -301,6 +312,16 @@ func (g *G) resultType() {
 	}
 	ut.Attr = &m.Attr{Type: obj}
 	tameRecursion(ut.Attr, name)
+	// open finding: two self-referencing attributes lose data in the projection code
+	selfRefs := 0
+	for _, f := range obj.Fields {
+		if refsType(f.Attr.Type, name) {
+			selfRefs++
+			if selfRefs > 1 && g.avoid("C08-recursive-result-type-two-self-refs-loses-attribute") {
+				f.Attr = m.Prim(m.String)
+			}
+		}
+	}
 	// views: default (all or most fields) + 0-2 others
 	def := &m.View{Name: "default"}
 	for _, f := range obj.Fields {
@@ -308,6 +329,9 @@ func (g *G) resultType() {
 	}
 	ut.Views = append(ut.Views, def)
 	nv := rapid.IntRange(0, 2).Draw(t, "nviews")
+	if g.p.ViewHeavy && nv == 0 {
+		nv = 1
+	}
 	vnames := []string{"tiny", "full", "link", "extended"}
 	for i := 0; i < nv; i++ {
 		v := &m.View{Name: vnames[i]}
@@ -318,6 +342,21 @@ func (g *G) resultType() {
 		}
 		if len(v.Fields) == 0 {
 			v.Fields = append(v.Fields, g.viewField(obj.Fields[0]))
+		}
+		// open finding: a view omitting a required object attribute makes the client panic
+		for _, f := range obj.Fields {
+			if !f.Required || g.d.Underlying(f.Attr) != m.Object {
+				continue
+			}
+			in := false
+			for _, vf := range v.Fields {
+				if vf.Name == f.Name {
+					in = true
+				}
+			}
+			if !in && g.avoid("C08-required-object-absent-client-panic") {
+				v.Fields = append(v.Fields, g.viewField(f))
+			}
 		}
 		ut.Views = append(ut.Views, v)
 	}
@@ -331,7 +370,8 @@ func (g *G) viewField(f *m.Field) m.ViewField {
 	vf := m.ViewField{Name: f.Name}
 	// nested result type: optionally pick one of its views
 	if f.Attr.Type.Kind == m.User {
-		if ut := g.d.TypeByName(f.Attr.Type.User); ut != nil && ut.Result && len(ut.Views) > 1 && rapid.Bool().Draw(g.t, "nestedview") {
+		if ut := g.d.TypeByName(f.Attr.Type.User); ut != nil && ut.Result && len(ut.Views) > 1 && rapid.Bool().Draw(g.t, "nestedview") &&
+			!(ut.Attr != nil && g.d.FieldByName(ut.Attr, f.Name) == f && g.avoid("C01-recursive-result-type-nested-view")) {
 			vf.View = ut.Views[rapid.IntRange(0, len(ut.Views)-1).Draw(g.t, "whichview")].Name
 			g.feat("nested-view-override")
 		}
